@@ -14,7 +14,7 @@ pub fn rewrite(kind: &str, k: usize, src: &str) -> Option<String> {
     let pre: String = cs[..k].iter().collect();
     let post: String = cs[k..].iter().collect();
     // `blank`, `commentline`, `commentlinep` take a run length 1..4 as a trailing digit (`blank3` = three blank lines)
-    let (kind, n) = match kind.char_indices().last() { Some((i, d)) if d.is_ascii_digit() => (&kind[..i], d.to_digit(10).unwrap() as usize), _ => (kind, 1) };
+    let (kind, n) = match kind.char_indices().last() { Some((i, d)) if ('2'..='4').contains(&d) => (&kind[..i], d.to_digit(10).unwrap() as usize), _ => (kind, 1) };
     Some(match kind {
         // a line comment at the end of the line that contains offset k (k = offset of that line's `\n`)
         "comment" => format!("{} # c é{}", pre, post),
@@ -128,7 +128,7 @@ fn gen_program(rng: &mut Rng) -> String {
 
 /// candidate offsets for a rewrite kind, from the real lexer's token positions
 fn candidates(kind: &str, src: &str) -> Vec<usize> {
-    let kind = kind.trim_end_matches(|c: char| c.is_ascii_digit());
+    let kind = kind.trim_end_matches(|c: char| ('2'..='4').contains(&c));
     let cs: Vec<char> = erg_common::normalize_newline(src).chars().collect();
     let mut line_start = vec![0usize];
     for (i, c) in cs.iter().enumerate() { if *c == '\n' { line_start.push(i + 1); } }
@@ -137,9 +137,17 @@ fn candidates(kind: &str, src: &str) -> Vec<usize> {
     let mut v = vec![];
     for (i, t) in ts.iter().enumerate() {
         let Some(o) = off(t) else { continue };
+        // the offset is derived from the token's line/column: skip tokens whose recorded position is not where their text is
+        // (line drift after multi-line strings, finding C08-line-drift)
+        let first = if t.kind == TokenKind::Newline { Some('\n') } else { t.content.chars().next() };
+        if !matches!(t.kind, TokenKind::Indent | TokenKind::Dedent | TokenKind::EOF) && cs.get(o).copied() != first { continue; }
         match kind {
             "comment" | "comment0" | "spaces" => if t.kind == TokenKind::Newline { v.push(o); },
             "blank" | "commentline" | "commentlinep" | "commentline0" => if t.kind == TokenKind::Newline { v.push(o + 1); },
+            // whitespace next to `+ - * **` decides prefix/infix (op_fix reads the neighbouring characters): a comment or a continuation glued to
+            // such an operator is not a layout-preserving rewrite
+            "cont" | "cont0" | "mlcomment" | "mlcomment-sp" if matches!(t.kind, TokenKind::Plus | TokenKind::Minus | TokenKind::Star | TokenKind::Pow | TokenKind::PrePlus
+                | TokenKind::PreMinus | TokenKind::PreStar | TokenKind::PreDblStar | TokenKind::IntLit) => {}
             "cont" | "cont0" => if i > 0 && o > 0 && cs.get(o - 1) == Some(&' ') && !matches!(t.kind, TokenKind::Newline | TokenKind::Indent | TokenKind::Dedent | TokenKind::EOF)
                 && !matches!(ts[i - 1].kind, TokenKind::Newline | TokenKind::Indent | TokenKind::Dedent) { v.push(o - 1); },
             "mlcomment" | "mlcomment-sp" => if !matches!(t.kind, TokenKind::Newline | TokenKind::Indent | TokenKind::Dedent | TokenKind::EOF | TokenKind::StrInterpMid | TokenKind::StrInterpRight)
